@@ -206,7 +206,9 @@ def helper_chain(rt, mod, fn):
         ex = p.expand(p.exit[1])
         for n in ast.walk(ex):
             if isinstance(n, ast.Call) and isinstance(n.func, ast.Attribute) and isinstance(n.func.value, ast.Call):
-                rc = rt.idx.resolve_class(mod, n.func.value.func)
+                # the recogniser is constructed here or in one module-level helper (inlined by the shared reader)
+                src = R.recognizer_constructions(rt, mod, n.func.value)
+                rc = src[0] if src is not None and src[1] else None
                 if rc is not None and rc in rt.recognizers:
                     k, g = rt.idx.find_method(rc, n.func.attr)
                     if g is None:
